@@ -23,6 +23,18 @@ CHECKS = {
  'C05': dict(cat='model_checking', engine='lockstep-bfs', tech='explicit-state BFS over operation histories on the real translated code with canonical-state deduplication, reference model in lockstep',
     text='(a) every load/store flavour x static offset x base address x value with all memory bytes compared after each store (ASan build); (b) breadth-first search over histories of a 50-operation alphabet (stores, memory.grow by 0/1/2/3/65535/65536/2^32-1, size, fill, copy overlapping in both directions, init, data.drop, loads) for 6 memory declarations incl. (0,0) and (1,65536): a state is the history reaching it, deduplicated by (pages, all bytes, dropped flag); every transition runs the real translated code on a fresh instance next to the reference model and compares result, trap, pages and every byte. Quick depth 3, thorough depth 5.',
     note='The reference caps growth at 65535 pages (a resource limit the spec permits; the runtime keeps the byte size in 32 bits). Address wrap-around cannot be observed under the in-bounds precondition. Trusts the reference interpreter (spec-suite validated).', ref='§2 C05'),
+ 'C06': dict(cat='model_checking', engine='lockstep-bfs', tech='exhaustive configuration product + all operation sequences over two live instances on the real translated code, reference model in lockstep',
+    text='231 module configurations ({no, defined, imported memory} x 5 data-segment layouts x {no, defined, imported table} x 0-2 element segments x {no, defined, imported start}), each with 10 globals of all types and duplicate/re-exported exports: right after Instantiate every memory byte of the window, every global, every table slot and the host calls of the start function are compared with the reference given the same embedder objects. Then ALL sequences of <= 3 (thorough 4) operations from {get/set global, load, store, grow, call through table} x {instance A, B} plus Instantiate-B at every position run on fresh instances; the reference keeps two separate instances, so any shared defined state or repeated/missing start shows up.',
+    note='Embedder answers are an enumerated fixed map. Export symbols are used literally as <module>_<name> (names needing escaping are read from the header and must be distinct and link).', ref='§2 C06'),
+ 'C08': dict(cat='exploration', tech='exhaustive enumeration of single encoding deviations of each base module through an own binary rewriter; output multiset comparison',
+    text='For each base module (thorough: all 874 valid spec-suite modules + modules from the C04/C06 enumerations + 3 hand-built ones; quick: every 6th) every single deviation from its byte encoding is generated by an own parser/re-emitter: each LEB128 field (sizes, counts, indices, immediates, block types, limits, name lengths; 52 000 fields) at every other legal length, a custom section (5 names incl. "name", 3 payloads) at every section boundary, data segments flag 0 <-> flag 2/memory 0, empty sections present <-> omitted, the all-maximal encoding, and (thorough) systematic pairs for the hand-built modules. Each variant must be accepted by the real translator and give the same multiset of C definitions as the base encoding (280 000 translator runs thorough).',
+    note='Reserved single-byte immediates (call_indirect table, memory.size/grow/copy/fill/init memory index) are not padded (the targeted spec level defines them as bytes). Three or more simultaneous deviations are covered only by the all-maximal variant.', ref='§2 C08'),
+ 'C10': dict(cat='fault_enumeration', engine='translator-runs', tech='exhaustive truncation-point enumeration + option product on an ASan/UBSan build of the translator',
+    text='ASan+UBSan build of the translator from /repo. (a) every valid module of the corpus (spec suite, hand-built, 20 stress names x 4 name positions incl. non-ASCII/quotes/5000-byte names, 5 size-stress modules) x option sets (8 representative sets each; the full 384-element option product on the hand-built modules) must exit 0 with no signal and no sanitizer report. (b) every proper prefix 0<k<len of every module <= 4 KiB (all but one spec module; boundary +-2 for larger ones; thorough about 115 000 prefixes): terminates, no sanitizer report, no SIGSEGV/SIGBUS/SIGFPE/SIGILL.',
+    note='An own abort()/assert on a TRUNCATED file is tolerated and counted (a diagnostic + non-zero status); on a valid module it is a violation. Leaks are not counted.', ref='§2 C10'),
+ 'C20': dict(cat='exploration', engine='translator-runs', tech='exhaustive configuration product (output path x cwd x options x directory contents) with snapshot + strace monitors and an own effect model',
+    text='Every output-path shape (relative, ./, ../, nested, absolute, no extension, two extensions, 200-character directory, via a symlinked directory, long base name) x working directory x option sets (thorough: full product of -f/-t/-d/-c/-r/-g/-p/-m x 3 layouts of pre-existing near-miss names in the output directory, its sub-directory, the working directory and an unrelated directory). Two monitors per run of the real translator: tree snapshot before/after and an strace log of every mutating system call; effects must lie inside the set an own model allows (output, header, [sd][0-9]{10}.c, datasegments only with gnu-ld, all in dirname(output); deletions only of pattern names there and only with -c, which must remove them).',
+    note='Paths outside the alphabet are not covered. strace is trusted to see every mutating call.', ref='§2 C20'),
 }
 
 def main():
@@ -36,7 +48,7 @@ def main():
             'thorough_cmd': 'bin/check %s thorough' % pid,
             'evidence_file': 'evidence/%s.json' % pid,
             'replay_cmd_template': 'bin/check replay {path}',
-            'engine': c.get('engine', 'lockstep'),
+            'engine': c.get('engine', 'translator-runs' if pid == 'C08' else 'lockstep'),
             'level_claimed': {'category': c['cat'], 'text': c['text'], 'design_ref': c['ref']},
             'level_note': c['note'],
             'technique': c['tech'],
@@ -50,6 +62,7 @@ def main():
                   'source_commits': [], 'add_only': True},
         'engines': [
             {'name': 'lockstep', 'path': 'lib/batch.py + ref/lockstep.h + ref/wasmref.c', 'serves_properties': ['C01'], 'kind_free_text': 'bounded-exhaustive enumeration of (program, input); real pipeline w2c2 -> C compiler -> run, stepped in lockstep with an own reference interpreter'},
+            {'name': 'translator-runs', 'path': 'checks/c08.py, c10.py, c20.py, c09.py', 'serves_properties': [], 'kind_free_text': 'exhaustive enumeration of translator invocations (encodings, truncation points, option/path/directory configurations) on the binary built from /repo, with output comparison, sanitizers or system-call monitors as oracle'},
             {'name': 'lockstep-bfs', 'path': 'ref/lockstep.h (ls_main_bfs) + lib/batch.py', 'serves_properties': [], 'kind_free_text': 'explicit-state breadth-first search over operation histories; each transition re-executes the history on a fresh implementation instance and a fresh reference instance; states deduplicated by a hash of the observable state'},
         ],
         'checks': checks,
@@ -57,7 +70,7 @@ def main():
         'notes': 'All checks rebuild the translator/runtime from /repo working tree (content-hashed cache under build/). known_findings.jsonl lists fixed and known findings; it is never written at run time.',
     }
     for e in m['engines']:
-        e['serves_properties'] = [p for p in ALL if p in CHECKS and CHECKS[p].get('engine', 'lockstep') == e['name']]
+        e['serves_properties'] = [p for p in ALL if p in CHECKS and CHECKS[p].get('engine', 'translator-runs' if p == 'C08' else 'lockstep') == e['name']]
     with open(os.path.join(VERIF, 'MANIFEST.json'), 'w') as f:
         json.dump(m, f, indent=1)
 
